@@ -54,6 +54,20 @@ CLAIMED.update({
          "All interleavings of two callers, the clock goroutine and the stopper are explored on the model (NoEarlyTimeout, AtMostOneClock, LiveDeadlineHasClock, clock exit); the histories the property names are then run against the real code in real time with one-sided hard bounds, and the event order observed under the mutex must be a behaviour of the model.",
          "Trusted: TLC; the urgency assumptions of the model (goroutines scheduled within a tick); wall-clock bounds: hard lower bound d/2, soft upper bound retried.", "6/C14"),
 })
+CLAIMED.update({
+ "C06": ("model_checking", "TLC-enumerated bounded grammar (Gen_Find, RE2 dialect) replayed through all 22 adapter methods against Go's regexp as the oracle the property names; the TLA+ semantics is the third leg that localises differences",
+         "The case space (patterns of the common syntax x all inputs up to a bound x n) is enumerated by the model checker and every adapter method is compared with the standard library on each case, including invalid UTF-8 and nil-ness; the specification must agree with the library too, otherwise the check reports itself broken.",
+         "Oracle: Go's regexp (by the property's own wording). Common syntax = what regexp.Compile accepts among the enumerated families (no quantified nullable sub-pattern by construction).", "6/C06"),
+ "C10": ("exploration", "TLC enumerates every token string up to a bound (Gen_Tokens.tla) and the repository's parser corpus; the replayer drives the whole API under recover and a watchdog and compares error classes with the TLA+ predicate ArgError",
+         "Exploration: outcome classes only (usable Regexp or parse error; calls return normally; errors are timeout, stack limit or the documented argument errors exactly when ArgError predicts).",
+         "Not coverage-guided byte mutation (a different technique family); memory safety beyond panics is not addressed.", "6/C10 and 8"),
+ "C11": ("model_checking", "TLC model checking of Pool.tla (all interleavings of Get/Select/Init/Scan/Put/Drop and the LRU) + race-detector stress on shared Regexps with results compared to sequential execution + trace validation of hook events (ownership intervals, reset state, program restore, cache bounds) against Pool.tla by TLC (Obs_Pool)",
+         "The design-level question (can two goroutines share a runner, can a runner come back with the quick program, is state reset) is decided on the model for every interleaving; the real code is then observed under the race detector and every logged event order must be a behaviour of the model, every result equal to the sequential one.",
+         "Trusted: TLC, the Go race detector (observation instrument), hook events logged after acquisition / before release. The shared clock is C14's model.", "6/C11"),
+ "C12": ("model_checking", "TLC model checking of Pool.tla (CleanAtScan, IdleIsFull, RightProgram, LRU) + TLC-enumerated call histories (Gen_Hist: every ordered pair over a reduced call alphabet, plus long pseudo-random histories) replayed on shared vs freshly compiled Regexps + trace validation of runner state at every scan start (Obs_Pool)",
+         "History independence is the headline invariant of Pool.tla (every result is a function of the arguments); every predecessor/successor pair of call kinds incl. error exits is enumerated and replayed, and the projected interpreter state at each scan start must be the reset state.",
+         "Trusted: TLC; results compared through digests of all captures / output strings; inputs cross the 1K/4K/16K buffer classes.", "6/C12"),
+})
 NOT_YET = "check not built yet in this round (planned, see DESIGN.md section 6)"
 
 hooks_commits = []
@@ -87,6 +101,8 @@ m = {
   {"name": "Obs_Case", "path": "spec/Obs_Case.tla", "serves_properties": ["C20"], "kind_free_text": "metamorphic case-flip families"},
   {"name": "StackPolicy", "path": "spec/StackPolicy.tla", "serves_properties": ["C13"], "kind_free_text": "state machine of the backtracking-stack growth policy, model checked; Obs_Stack.tla validates recorded growth traces and limit sweeps"},
   {"name": "Clock", "path": "spec/Clock.tla", "serves_properties": ["C14"], "kind_free_text": "state machine of the timeout clock with real time, model checked (MC_Clock.tla, Clock_*.cfg); Obs_Clock.tla validates recorded clock events"},
+  {"name": "Pool", "path": "spec/Pool.tla", "serves_properties": ["C11", "C12"], "kind_free_text": "state machine of the runner pool / program switch / LRU, model checked (Pool.cfg, Pool_quick.cfg); Obs_Pool.tla validates hook event traces; Gen_Hist.tla enumerates call histories"},
+  {"name": "Gen_Tokens", "path": "spec/Gen_Tokens.tla", "serves_properties": ["C10"], "kind_free_text": "token-string enumeration and argument-error predicate"},
   {"name": "Obs_Find", "path": "spec/Obs_Find.tla", "serves_properties": ["C01", "C15"], "kind_free_text": "trace/observation validation spec: recorded find results must be behaviours of RegexSem"},
  ],
  "checks": [],
